@@ -5,6 +5,8 @@ import numpy as np
 from .. import core, gen
 
 ID = 'C06'
+FOUNDATIONS = ['harness.foundation.filteriter']   # the models use the closed form proved by F6 (filterIter_refines)
+LEAN_TARGETS = ['Mahotas.Proofs.FilterIter']
 LEVEL = 'proof'
 MODES = ['nearest', 'wrap', 'reflect', 'mirror', 'constant', 'ignore']
 DTYPES = ['float64', 'float32', 'int32', 'uint8', 'int8', 'int64', 'uint16', 'bool']
